@@ -764,7 +764,7 @@ def check_pfield(ctx, rng):
     BATCH.append(('_pfield (SecInt/SecFxp)', reqs, impl, None))
 
 
-def lifted_run(m, t, q, seed):
+def lifted_run(m, t, q, seed, t_initial=None):
     """One real multi-party computation over SecFld(q) with q <= m, t > 0.  Returns (problem or None, parties)."""
     import random as pyrandom
     clear_caches()
@@ -776,7 +776,7 @@ def lifted_run(m, t, q, seed):
         a, b, c = (S(v) for v in xs)
         res = await mpc.output([a * b + c, a + b, a * a * c, a - b])
         return (S.subfield is not None, S.field.order, [(type(v).__name__, int(v), type(v).order) for v in res])
-    net = SimNet(m, t, no_prss=False, seed=seed)
+    net = SimNet(m, t, no_prss=False, seed=seed, t_initial=t_initial)   # t_initial: mpc.threshold assigned after set-up
     try:
         outs = net.run(prog)
     except Exception as exc:
@@ -805,6 +805,15 @@ def check_lifted_runs(ctx):
         if prob:
             ctx.violation(f'C39 lifted run m={m} t={t} q={q}: {prob}',
                           {'kind': 'liftrun', 'case': [m, t, q], 'seed': ctx.seed,
+                           'expected': 'outputs in GF(q), sharing field larger than m', 'observed': prob})
+    # the live threshold decides: runtime set up with threshold 0 (-T0), the program assigns mpc.threshold afterwards
+    for (m, t, q, t0) in [(3, 1, 2, 0), (3, 1, 3, 0), (5, 2, 5, 0), (5, 2, 3, 1)]:
+        prob, n = lifted_run(m, t, q, ctx.seed, t_initial=t0)
+        ctx.case(('liftrun-reassigned', m, t, q, t0))
+        ctx.count('lifted_runs_threshold_reassigned')
+        if prob:
+            ctx.violation(f'C39 lifted run m={m} t={t} q={q} (threshold {t0} at set-up, then mpc.threshold = {t}): {prob}',
+                          {'kind': 'liftrun', 'case': [m, t, q], 't_initial': t0, 'seed': ctx.seed,
                            'expected': 'outputs in GF(q), sharing field larger than m', 'observed': prob})
 
 
@@ -907,7 +916,7 @@ def replay(ctx, data):
         return ok, f'Sec{knd}(l={l}, f={f}, p={p}, n={n}) m={m} t={t} k={k}: {msg}'
     if kind == 'liftrun':
         m, t, q = data['case']
-        prob, _ = lifted_run(m, t, q, data.get('seed', 0))
+        prob, _ = lifted_run(m, t, q, data.get('seed', 0), data.get('t_initial'))
         return prob is None, f'lifted run m={m} t={t} q={q}: {prob or "outputs correct, field exceeds m"}'
     if kind == 'secflt':
         m, t, k, s_, e_ = data['case']
